@@ -1465,7 +1465,7 @@ class Discovery(object):
                         SubscribeReplicaMessage(replica, False))
                     # remove all knowledge of current replicas as we are not
                     #  subscribed any more
-                    self._replicas_data.pop(replica)
+                    self._forget_replicas(replica)
             elif cb is not None:
                 raise ValueError(
                     'No corresponding callback found for replica %s : %s',
@@ -1475,8 +1475,15 @@ class Discovery(object):
                 SubscribeReplicaMessage(replica, False))
             # remove all knowledge of current replicas as we are not
             #  subscribed any more
-            self._replicas_data.pop(replica)
+            self._forget_replicas(replica)
         return removed
+
+    def _forget_replicas(self, replica):
+        # keep our own replica: we still have to un-publish it one day
+        own = self.own_agent in self._replicas_data.get(replica, ())
+        self._replicas_data.pop(replica, None)
+        if own:
+            self._replicas_data[replica].add(self.own_agent)
 
     def replica_agents(self, replica: ComputationName) -> Set[AgentName]:
         """
